@@ -47,6 +47,8 @@ func opSite(o op) string {
 	switch o.K {
 	case kReenter:
 		return modNames[o.X] + ".reenter"
+	case kHostReenter:
+		return "G.call_f1{close inside H.f1}"
 	case kStore:
 		return fmt.Sprintf("store:%d", o.X)
 	case kFailInst:
@@ -132,7 +134,7 @@ type twinHost struct {
 
 func (t *twinHost) get(eng int) *world {
 	if t.w[eng] == nil {
-		t.w[eng] = newWorld(false, eng, false, [nMods]bool{true, true, true, true, true}, 0)
+		t.w[eng] = newWorld(false, eng, false, [nMods]bool{true, true, true, true, true, true, true}, 0, false)
 	}
 	return t.w[eng]
 }
@@ -148,7 +150,7 @@ func (t *twinHost) release(eng int, tainted bool) {
 		t.w[eng] = nil
 		return
 	}
-	for _, x := range []int{mN, mM, mC, mB, mA} {
+	for _, x := range []int{mG, mH, mN, mM, mC, mB, mA} {
 		if w.inst[x] != nil {
 			w.inst[x].Close(bgctx)
 			w.inst[x] = nil
@@ -184,7 +186,7 @@ func runTwin(tw *world, h history, ps state) (tt twinTrace) {
 			if tw.inst[o.X] == nil {
 				r = tw.do(o)
 			}
-		case kStore, kReenter, kFailInst, kGrowGuest, kGrowHost, kMemWrite:
+		case kStore, kReenter, kFailInst, kGrowGuest, kGrowHost, kMemWrite, kHostReenter:
 			r = tw.do(o)
 		}
 		tt.ops = append(tt.ops, r)
@@ -223,7 +225,7 @@ func execHistory(h history, eng int, mark func(step int, site, phase string)) (r
 			need[o.X] = true
 		}
 	}
-	w := newWorld(true, eng, h.Init.NoCache, need, h.compileOrder())
+	w := newWorld(true, eng, h.Init.NoCache, need, h.compileOrder(), h.Init.HostVia)
 	tainted := false
 	defer func() {
 		w.teardown()
@@ -295,7 +297,7 @@ func execHistory(h history, eng int, mark func(step int, site, phase string)) (r
 			default:
 				return fail(k, site, "op", "diverged", test, t)
 			}
-		case kReenter:
+		case kReenter, kHostReenter:
 			t := tt.ops[k]
 			if !strings.HasPrefix(t, "v:") {
 				fw.Fatalf("twin: %s: %s", o, t)
@@ -330,10 +332,21 @@ func execHistory(h history, eng int, mark func(step int, site, phase string)) (r
 		tt = runTwin(tw, h2, s)
 	}
 	// probes: every call the host can still make, before and after a forced collection.
+	hostClosureCheck := func(phase string) *caseResult {
+		// the state object H's Go closures capture must not be finalized while a guest importing them is reachable
+		if w.hostCollected != nil && w.hostCollected.Load() && s.reachable()[mG] {
+			r := fail(len(h.Ops), "H.closures", phase, "host-closure-collected-while-importer-live", "finalizer of the closures' state ran", "state alive")
+			return &r
+		}
+		return nil
+	}
 	for _, phase := range probePhases {
 		if phase == "probe-after-gc" {
 			mark(len(h.Ops), "forced-gc", phase)
 			w.collect()
+		}
+		if r := hostClosureCheck(phase); r != nil {
+			return *r
 		}
 		for x := 0; x < nMods; x++ {
 			if s.Inst[x] == instNone || s.Drop[x] {
